@@ -108,9 +108,9 @@ func c10Resume(ctx context.Context, w *c01World, image *vkStore, forkTip string,
 // VerifHarness_C10_crash: the process dies right after the c-th storage mutation.
 func VerifHarness_C10_crash() {
 	ctx := context.Background()
-	maxDepth := 2
+	maxDepth := 3 // depth 3 reverts into the middle of a header file with a whole file above it
 	if verifrt.Thorough() {
-		maxDepth = 4
+		maxDepth = 5
 	}
 	depth := 1 + verifrt.Choose("reorg-depth", maxDepth)
 	w, forkTip, _ := c10World(ctx, depth)
@@ -132,7 +132,7 @@ func VerifHarness_C10_crash() {
 // VerifHarness_C10_fault: the j-th storage operation returns an error.
 func VerifHarness_C10_fault() {
 	ctx := context.Background()
-	depth := 1 + verifrt.Choose("reorg-depth", 2)
+	depth := 1 + verifrt.Choose("reorg-depth", 3)
 	w, forkTip, _ := c10World(ctx, depth)
 	store := w.k.store
 	store.failOp = verifrt.IntRange("failing-operation", 0, 400)
